@@ -25,6 +25,8 @@ CONSTANTS Ops,        \* sequence of operation records the driver machine offers
           MaxDepth, MaxActors, PropSetA
 
 VARIABLES alive,      \* set of actor ids whose interpreter is running
+          fin,        \* actor ids whose machine reached a top-level final state (status done): they process nothing any
+                      \* more but keep their place in the children map and the registry, and their own children keep running
           kids,       \* actor id -> set of child ids in its _actors map
           par,        \* actor id -> parent id ("NONE" for the root)
           segs,       \* actor id -> set of id segments after the first (actor_id.split(":")[1:])
@@ -37,12 +39,12 @@ VARIABLES alive,      \* set of actor ids whose interpreter is running
           orphans,    \* bag (sequence) of ids of interpreters that keep running after their id was re-used
           bctr,       \* number of interpreters created so far (born[id] = incarnation of the actor holding id)
           now, ctr, sctr, warn, lastOp, stoppedRoot
-avars == <<alive, kids, par, segs, src, sys, rec, pend, sends, born, orphans, bctr, now, ctr, sctr, warn, lastOp, stoppedRoot>>
+avars == <<alive, fin, kids, par, segs, src, sys, rec, pend, sends, born, orphans, bctr, now, ctr, sctr, warn, lastOp, stoppedRoot>>
 
 Root == "m"
 NONE == "NONE"
 
-Init == /\ alive = {Root} /\ kids = (Root :> {}) /\ par = (Root :> NONE) /\ segs = (Root :> {})
+Init == /\ alive = {Root} /\ fin = {} /\ kids = (Root :> {}) /\ par = (Root :> NONE) /\ segs = (Root :> {})
         /\ src = <<>> /\ sys = <<>>
         /\ rec = (Root :> <<>>) /\ pend = {} /\ sends = (Root :> <<>>) /\ born = (Root :> 0) /\ orphans = <<>>
         /\ bctr = 1 /\ now = 0 /\ ctr = 1 /\ sctr = 1 /\ warn = 0 /\ lastOp = [op |-> "init"] /\ stoppedRoot = FALSE
@@ -68,8 +70,8 @@ Ext(f, k, v) == [x \in DOMAIN f \cup {k} |-> IF x = k THEN v ELSE f[x]]
 
 \* stopping actor c (and everything below it): interpreters stop, their pending sends are cancelled
 StopTree(st, c) ==
-  LET D == {d \in DescIn(st, c) : d \in st.alive}
-  IN [st EXCEPT !.alive = @ \ D, !.pend = {p \in @ : p.owner \notin D},
+  LET D == {d \in DescIn(st, c) : d \in st.alive \cup st.fin}
+  IN [st EXCEPT !.alive = @ \ D, !.fin = @ \ D, !.pend = {p \in @ : p.owner \notin D},
                 \* every stopped interpreter drops its own systemId registrations
                 !.sys = [x \in {y \in DOMAIN @ : @[y] \notin D} |-> @[x]]]
 
@@ -79,7 +81,7 @@ SpawnIn(st, a, key, eid, sid) ==
   LET id == IF eid # NONE THEN a \o ":" \o eid ELSE a \o ":" \o key \o ":#" \o ToString(st.ctr)
       sg == st.segs[a] \cup (IF eid # NONE THEN {eid} ELSE {key, "#" \o ToString(st.ctr)})
       \* re-used explicit id: the child that held it is stopped (with its subtree) before the new one is registered
-      st0 == IF id \in st.alive THEN StopTree(st, id) ELSE st
+      st0 == IF id \in st.alive \cup st.fin THEN StopTree(st, id) ELSE st
       st1 == [st0 EXCEPT !.alive = @ \cup {id},
                         !.born = Ext(@, id, st.bctr), !.bctr = @ + 1,
                         !.kids = Ext(Ext(@, a, @[a] \cup {id}), id, {}),
@@ -97,6 +99,7 @@ Deliver(st, to, ev, fuel) ==
   ELSE LET st1 == [st EXCEPT !.rec[to] = Append(@, ev)]
            p == st.par[to]
        IN IF to = Root THEN st1
+          ELSE IF ev = "FIN" THEN [st1 EXCEPT !.alive = @ \ {to}, !.fin = @ \cup {to}]   \* the child completes
           ELSE IF ev = "PING" THEN Deliver(st1, p, "PONG", fuel - 1)                  \* sendParent
           ELSE IF ev = "ESC" THEN Deliver(st1, p, "ESCALATED", fuel - 1)               \* escalate
           ELSE IF ev = "GSP" THEN SpawnIn(st1, to, "g", "g1", "sg")                  \* spawnChild in the child
@@ -105,10 +108,10 @@ Deliver(st, to, ev, fuel) ==
                IN IF t = NONE THEN [st1 EXCEPT !.warn = @ + 1] ELSE Deliver(st1, t, "X", fuel - 1)
           ELSE st1
 
-Pack == [alive |-> alive, kids |-> kids, par |-> par, segs |-> segs, src |-> src, sys |-> sys, rec |-> rec,
+Pack == [alive |-> alive, fin |-> fin, kids |-> kids, par |-> par, segs |-> segs, src |-> src, sys |-> sys, rec |-> rec,
          pend |-> pend, sends |-> sends, born |-> born, orphans |-> orphans, bctr |-> bctr, ctr |-> ctr, sctr |-> sctr, warn |-> warn]
 Commit(st, op, t) ==
-  /\ alive' = st.alive /\ kids' = st.kids /\ par' = st.par /\ segs' = st.segs /\ src' = st.src /\ sys' = st.sys /\ rec' = st.rec /\ pend' = st.pend
+  /\ alive' = st.alive /\ fin' = st.fin /\ kids' = st.kids /\ par' = st.par /\ segs' = st.segs /\ src' = st.src /\ sys' = st.sys /\ rec' = st.rec /\ pend' = st.pend
   /\ sends' = st.sends /\ born' = st.born /\ orphans' = st.orphans /\ bctr' = st.bctr /\ ctr' = st.ctr /\ sctr' = st.sctr /\ warn' = st.warn /\ now' = t /\ lastOp' = op
   /\ stoppedRoot' = (stoppedRoot \/ op.op = "stop")
 
@@ -172,7 +175,7 @@ StopRoot ==
 Next == Step \/ Advance \/ StopRoot
 Spec == Init /\ [][Next]_avars
 Bound == TLCGet("level") <= MaxDepth
-View == <<alive, kids, src, sys, rec, pend, sends, born, orphans, now, stoppedRoot>>
+View == <<alive, fin, kids, src, sys, rec, pend, sends, born, orphans, now, stoppedRoot>>
 Resolve(a, spec) == ResolveIn(Pack, a, spec)
 Desc(a) == DescIn(Pack, a)
 
@@ -204,19 +207,19 @@ C15Step ==
        [] o.op = "stopchild" ->
             LET t == Resolve(Root, o.to) IN
             IF t = NONE THEN Tag(alive' = alive, "stopchild_unresolved_changed_something")
-            ELSE Tag(Desc(t) \cap alive' = {}, "stopchild_left_descendant_running")
+            ELSE Tag(Desc(t) \cap (alive' \cup fin') = {}, "stopchild_left_descendant_running")
                  \cup Tag(t \notin kids'[Root], "stopchild_left_in_children_map")
                  \cup Tag(\A s \in DOMAIN sys' : sys'[s] \notin Desc(t), "stopped_actor_left_in_system_registry")
        [] o.op = "stop" ->
-            Tag(alive' = {} /\ orphans' = <<>>, "stop_left_actor_running")
+            Tag(alive' = {} /\ fin' = {} /\ orphans' = <<>>, "stop_left_actor_running_or_unstopped")
             \cup Tag(pend' = {}, "stop_left_delayed_send")
             \cup Tag(kids'[Root] = {}, "stop_left_children_map")
             \cup Tag(\A s \in DOMAIN sys' : sys'[s] \in alive', "stopped_actor_left_in_system_registry")
        [] OTHER -> {}
 
 OnA(p, v) == IF p \in PropSetA THEN v ELSE {}
-AProj(al, kd, sy, rc, pn) ==
-  [alive |-> al, orphans |-> orphans', kids |-> [a \in DOMAIN kd |-> kd[a]], sys |-> sy, rec |-> rc,
+AProj(al, fi, orph, kd, sy, rc, pn) ==
+  [alive |-> al, fin |-> fi, orphans |-> orph, kids |-> [a \in DOMAIN kd |-> kd[a]], sys |-> sy, rec |-> rc,
    pend |-> LET RECURSIVE Q(_)
                 Q(S) == IF S = {} THEN <<>> ELSE LET x == CHOOSE y \in S : \A z \in S : y.n <= z.n
                                                  IN <<<<x.sid, x.to, x.ev, x.due>>>> \o Q(S \ {x})
@@ -225,7 +228,7 @@ AProj(al, kd, sy, rc, pn) ==
    \* differ in how many sends were registered before (a superseded send is being torn down inside the engine),
    \* so that the replay reaches each of them along its own history
    gen |-> {p.n : p \in pn}]
-EmitA == PrintT(ToJson([from |-> AProj(alive, kids, sys, rec, pend), step |-> lastOp',
-                        to |-> AProj(alive', kids', sys', rec', pend'), now |-> now',
+EmitA == PrintT(ToJson([from |-> AProj(alive, fin, orphans, kids, sys, rec, pend), step |-> lastOp',
+                        to |-> AProj(alive', fin', orphans', kids', sys', rec', pend'), now |-> now',
                         prop |-> [C15 |-> OnA("C15", C15Step)]]))
 =============================================================================
